@@ -307,8 +307,29 @@ def classified_through_matcher(ctx):
         ctx.undecided("classified-through-matcher", ctx.where(f), "info_for_script returns no literal {'type': <standard kind>} this rule can read")
 
 
+def match_consumes_the_script(ctx):
+    """the matcher accepts only a script it has walked to its END: the accepting exit is reached under a test that compares a
+    position in the script with len(script) (a script that merely BEGINS with a standard template is not that kind)"""
+    f = ctx.func(CAPI, "ContractAPI.match")
+    sp = f.params()[2] if len(f.params()) > 2 else "script"
+    w = sym.walk(ctx, f)
+    acc = [e for e in w.exits if e.kind == "return" and e.value is not None and not (isinstance(e.value, ast.Constant) and e.value.value in (None, False))]
+    if not acc:
+        ctx.undecided("match-consumes-script", ctx.where(f), "ContractAPI.match has no accepting return this rule can read")
+    for e in acc:
+        ops = [o for o in (gi.f_opaques(e.cond) if e.cond not in (True, False) else []) if isinstance(o, str)]
+        ends = [o for o in ops if ("len(%s)" % sp) in o and " == " in o]
+        if ends and any(sym.entails(e.cond, ("op", o)) for o in ends):
+            ctx.ok("match-consumes-script", sample={"accepting_exit_requires": ends[0][:60]})
+        elif not any(("len(%s)" % sp) in o for o in ops):
+            ctx.bad("match-consumes-script", ctx.where(f, e.node), "ContractAPI.match accepts on a path that never compares its position with len(%s): a script that begins with a standard template and carries trailing bytes is classified as that kind, and for_info rebuilds a shorter script" % sp)
+        else:
+            ctx.undecided("match-consumes-script", ctx.where(f, e.node), "ContractAPI.match accepts under `%s`; this rule reads `position == len(script)`" % [o[:50] for o in ops if ("len(%s)" % sp) in o][:2])
+
+
 def c08_4(ctx):
     classified_through_matcher(ctx)
+    match_consumes_the_script(ctx)
     capi = ctx.p.cls(CAPI, "ContractAPI")
     f = capi.methods.get("_is_nonminimal_push")
     if f is None:
